@@ -9,7 +9,7 @@ SWITCH_OFF = 6        # every 6th case runs with xfab.CHECKS switched off (resul
 EXHAUSTIVE = True
 RULE = ("exhaustive: all table entries x 2001-point grid s in [0,2] (f(0)=Z within 0.1, positivity, monotonicity decided "
         "analytically from the signs of a_i*b_i where possible, otherwise on the grid with a Lipschitz bound on f' between "
-        "grid points), FormFactor vs the nine coefficients; Hypothesis: (element, s in [0,2], s2 > s) for point-wise "
+        "grid points), FormFactor vs the nine coefficients; Hypothesis: (element, s in [0,2], s2 > s; scalars, 0-d arrays, unsorted 41-point grids of several shapes, arrays of 33000-90000 values) for point-wise "
         "positivity / monotonicity / formula. Non-trivial = element other than C, H, O (the only ones the suite touches)")
 ASSUMPTIONS = ["atomic numbers from an independent symbol->Z list in this file",
                "a change of a coefficient that moves f(0) by less than 0.1 e and keeps f monotone is physically indistinguishable and not claimed to be detected"]
